@@ -3,6 +3,7 @@ package main
 // System-level properties: C12 (tables = SPDX source data), C13 (purity / concurrency), C14 (cost).
 
 import (
+	"syscall"
 	"runtime/metrics"
 	"bytes"
 	"encoding/json"
@@ -261,9 +262,16 @@ type call struct {
 func (c *call) run() string {
 	switch c.fn {
 	case 0:
-		return implSat(c.expr, c.list).String()
+		r := implSat(c.expr, c.list)
+		if r.err != nil && r.panicv == nil {
+			return "err: " + r.err.Error() // the returned error is part of the result
+		}
+		return r.String()
 	case 1:
 		r := implExt(c.expr)
+		if r.err != nil && r.panicv == nil {
+			return "err: " + r.err.Error()
+		}
 		if r.err != nil || r.panicv != nil {
 			return r.String()
 		}
@@ -311,6 +319,37 @@ func genWorkload(n int) []*call {
 			w = append(w, &call{fn: 2, list: l})
 		}
 	}
+	// error paths: rewritten -or-later ids followed by a scanner error (rare branches where diagnostics are built)
+	rew := []string{"MIT-or-later", "Apache-2.0-or-later", "ISC-or-later", "Zlib-or-later+", "BSD-3-Clause-or-later", "MPL-2.0-or-later"}
+	tails := []string{"NOT-A-LICENSE", "LicenseRef-", "DocumentRef-", "DocumentRef-a:", "MIT WITH", "#", "(", "MIT +", "mit with Classpath-exception-2.0"}
+	for k := 0; k <= 3; k++ {
+		for _, tl := range tails {
+			parts := []string{}
+			for j := 0; j < k; j++ {
+				parts = append(parts, rew[rng.Intn(len(rew))])
+			}
+			parts = append(parts, tl)
+			e := strings.Join(parts, []string{" AND ", " OR "}[rng.Intn(2)])
+			w = append(w, &call{fn: 0, expr: e, list: []string{"MIT"}}, &call{fn: 1, expr: e}, &call{fn: 2, list: []string{"MIT", e}},
+				&call{fn: 0, expr: "MIT", list: []string{"MIT", e}})
+		}
+	}
+	// long lists with several different bad entries at different places (work split into batches must not change which
+	// error comes back)
+	for _, n := range []int{130, 256, 300, 512, scale(700, 1500)} {
+		for rep := 0; rep < scale(2, 4); rep++ {
+			l := make([]string, n)
+			for i := range l {
+				l[i] = tblActive[rng.Intn(len(tblActive))]
+			}
+			bad := []string{"NOT-A-LICENSE", "MIT AND ISC", "LicenseRef-", "MIT WITH", "ZZZ-1.0", "(MIT"}
+			for j := 0; j < 2+rng.Intn(3); j++ {
+				l[rng.Intn(n)] = bad[rng.Intn(len(bad))]
+			}
+			l[n-1-rng.Intn(n/4)] = bad[rng.Intn(len(bad))]
+			w = append(w, &call{fn: 0, expr: "MIT", list: l}, &call{fn: 2, list: l})
+		}
+	}
 	return w
 }
 
@@ -333,9 +372,42 @@ func init() {
 		go func() { io.Copy(&printed, rp); close(done) }()
 
 		base := make([]string, len(w))
+		// file descriptors 1 and 2 themselves go to a scratch file during the sequential run: package log and anything else
+		// that kept the original *os.File writes there, not to the swapped os.Stdout / os.Stderr variables
+		capf, capErr := os.CreateTemp("", "verif-c13-out-*")
+		saved1, e1 := syscall.Dup(1)
+		saved2, e2 := syscall.Dup(2)
+		fdCapture := capErr == nil && e1 == nil && e2 == nil
+		if fdCapture {
+			syscall.Dup2(int(capf.Fd()), 1)
+			syscall.Dup2(int(capf.Fd()), 2)
+		}
+		wroteAt, wroteLen := -1, int64(0)
 		for i, c := range w {
 			base[i] = c.run()
 			res.Evaluations++
+			if fdCapture && wroteAt < 0 {
+				if st, err := capf.Stat(); err == nil && st.Size() > 0 {
+					wroteAt, wroteLen = i, st.Size()
+				}
+			}
+		}
+		if fdCapture {
+			syscall.Dup2(saved1, 1)
+			syscall.Dup2(saved2, 2)
+			syscall.Close(saved1)
+			syscall.Close(saved2)
+			if wroteAt >= 0 {
+				buf := make([]byte, min(int(wroteLen), 300))
+				capf.ReadAt(buf, 0)
+				c := w[wroteAt]
+				fail(failure{Stream: "oracle", What: "a call wrote to standard output / standard error (file descriptors 1/2): " + show(string(buf)) + " during " + c.String(), Case: &kase{Expr: c.expr, ExprHex: hx(c.expr), Allowed: c.list, Extra: map[string]string{"fn": itoa(c.fn)}}, Impl: show(string(buf)), Expected: "no output"})
+			}
+			count("fd_level_capture")
+		}
+		if capErr == nil {
+			capf.Close()
+			os.Remove(capf.Name())
 		}
 		count("sequential_calls")
 		res.Distribution["sequential_calls"] = len(w)
@@ -405,17 +477,17 @@ func init() {
 			implSat(c.expr, l)
 			j := rng.Intn(len(l))
 			l[j] = genValidTerm().text
-			r2 := implSat(c.expr, l)
+			r2 := (&call{fn: 0, expr: c.expr, list: l}).run()
 			implSat("MIT", []string{"ISC", "Zlib"}) // an unrelated call in between (a one-entry memo is evicted)
-			r3 := implSat(c.expr, append([]string{}, l...))
-			if r2.String() == r3.String() && len(editCalls) < 80 {
+			r3 := (&call{fn: 0, expr: c.expr, list: append([]string{}, l...)}).run()
+			if r2 == r3 && len(editCalls) < 80 {
 				editCalls = append(editCalls, &call{fn: 0, expr: c.expr, list: append([]string{}, l...)})
-				editResults = append(editResults, r2.String())
+				editResults = append(editResults, r2)
 			}
 			res.Evaluations += 3
 			count("in_place_edits")
-			if r2.String() != r3.String() {
-				fail(failure{Stream: "oracle", What: "after an in-place edit of the caller's slice between two calls, Satisfies answers differently for that slice and for a fresh copy of it", Case: &kase{Expr: c.expr, Allowed: l, Extra: map[string]string{"edited_index": itoa(j), "first_list": hxl(c.list)}}, Impl: r2.String(), Expected: r3.String()})
+			if r2 != r3 {
+				fail(failure{Stream: "oracle", What: "after an in-place edit of the caller's slice between two calls, Satisfies answers differently for that slice and for a fresh copy of it", Case: &kase{Expr: c.expr, Allowed: l, Extra: map[string]string{"edited_index": itoa(j), "first_list": hxl(c.list)}}, Impl: r2, Expected: r3})
 				break
 			}
 		}
